@@ -81,7 +81,12 @@ func suiteC19(s *Suite, rng *Rng, tier string) {
 				s.Violate("C19:legendre-wrong", fmt.Sprintf("LegendreSymbol(%d,%d) = %d, math/big.Jacobi = %d", a, p, got, want), L{a, p})
 			}
 			if a >= 0 && a < p {
-				r, ok := gabi.VerifPrimeSqrt(ab, pb)
+				var r *gbig.Int
+				var ok bool
+				if pan := catchPanic(func() { r, ok = gabi.VerifPrimeSqrt(ab, pb) }); pan != "" {
+					s.Violate("C19:primesqrt-panicked", fmt.Sprintf("PrimeSqrt(%d,%d) panicked: %s", a, p, pan), L{a, p})
+					continue
+				}
 				isQR := want == 1 || a == 0
 				if ok != isQR {
 					s.Violate("C19:primesqrt-existence-wrong", fmt.Sprintf("PrimeSqrt(%d,%d) ok=%v", a, p, ok), L{a, p})
@@ -147,7 +152,12 @@ func suiteC19(s *Suite, rng *Rng, tier string) {
 					factors = append([]*gbig.Int{bi(4)}, factors...)
 				}
 				for a := int64(0); a < n; a += 1 + int64(rng.Intn(5)) {
-					r, ok := gabi.VerifModSqrt(bi(a), factors)
+					var r *gbig.Int
+					var ok bool
+					if pan := catchPanic(func() { r, ok = gabi.VerifModSqrt(bi(a), factors) }); pan != "" {
+						s.Violate("C19:modsqrt-panicked", fmt.Sprintf("ModSqrt(%d, %v) panicked: %s", a, factors, pan), L{a, n})
+						continue
+					}
 					// reference: brute force
 					exists := false
 					for t := int64(0); t < n; t++ {
@@ -386,4 +396,15 @@ func suiteC19(s *Suite, rng *Rng, tier string) {
 	s.Notes["rule"] = fmt.Sprintf("Legendre/Jacobi and PrimeSqrt: all a in [-p,2p) for all primes p < %d (1/%d sampled by seed in quick), Jacobi for odd composites < 400; four squares: all n < %d "+
 		"(sampled) + random to 300 bits; ModSqrt: products of two primes < 100 with/without factor 4 against brute force; ModInverse/ModPow/Crt small exhaustive-ish and random to 4096 bits; "+
 		"FastMod: all moduli 2^b-c, b<=12, negative/huge/aliased operands + large moduli; RandomPrimeInRange candidates and sieve; prepareBytes; safe prime generation at 16..64 bits", pmax, stride, nmax)
+}
+
+
+func catchPanic(f func()) (msg string) {
+	defer func() {
+		if r := recover(); r != nil {
+			msg = fmt.Sprint(r)
+		}
+	}()
+	f()
+	return
 }
